@@ -28,6 +28,7 @@ func TestVerifReplay(t *testing.T) {
 		"VerifC17Walks2":           VerifC17Walks2,
 		"VerifC18Quick":            VerifC18Quick,
 		"VerifC18Thorough":         VerifC18Thorough,
+		"VerifC18Reorg":            VerifC18Reorg,
 		"VerifC03Quick":            VerifC03Quick,
 		"VerifC03Thorough":         VerifC03Thorough,
 		"VerifC02TxQuick":          VerifC02TxQuick,
